@@ -96,6 +96,7 @@ func (x *Exec) callMerged(fn *ssa.Function, args []Value, caller *frame) (res Va
 		x.merging--
 		x.mergeBase = sMergeBase
 		x.decisions, x.pos, x.trace, x.pc = sDec, sPos, sTrace, sPC
+		x.pcVars, x.pcVarsN = nil, 0
 		x.depth, x.curInstr = sDepth, sInstr
 		if r := recover(); r != nil {
 			switch r.(type) {
@@ -122,6 +123,7 @@ func (x *Exec) callMerged(fn *ssa.Function, args []Value, caller *frame) (res Va
 		}
 		x.decisions, x.pos, x.trace = prefix, 0, nil
 		x.pc = nil // collect only the callee's own conditions
+		x.pcVars, x.pcVarsN = nil, 0
 		v := x.callBody(fn, args, caller)
 		outs = append(outs, outcome{x.ctx.AndAll(x.pc), v})
 		tr := x.trace
